@@ -11,6 +11,8 @@ func init() {
 			ruleContextChain(c, "C04.5")
 			ruleClosePathsReachCarrier(c, "C04.6")
 			ruleStickyAfterFinish(c, "C04.7")
+			ruleWatcher(c, "C04.8")
+			ruleQueueDiscipline(c, "C04.9")
 		},
 		Explain: "Static necessary conditions of tunnel termination reaching both ends: every client loop exit closes the channel with the cause; the server loop defers the cancel of the handlers' root context, derived from the carrier context; the channel close sets the flag, stores the cause, cancels every stream and the channel context, after running the tear-down; new RPCs test the flag in the same critical section; every blocking wait in the package has a release edge fired by the termination functions (A10), with the stream contexts cancelled on every finishing path; close paths reach the carrier (tear-down CloseSend, Stop: CloseSend every instance then wait; Add/Done pairing); sticky errors after finish. Necessary, not sufficient for 'nothing hangs'.",
 		Assume: []string{"the transport reports failures to Recv", "context cancellation wakes Done() waiters"},
@@ -20,6 +22,7 @@ func init() {
 		Run: func(c *Ctx) {
 			ruleClientIDs(c, "C08.1", "C08.2", "C08.3")
 			ruleIDValidation(c, "C08.4")
+			ruleRejectedIDsRecorded(c, "C08.4b")
 			ruleSingleDispatch(c, "C08.5")
 			ruleCloseOnce(c, "C08.5b")
 			ruleLateFramesInert(c, "C08.6")
@@ -49,6 +52,9 @@ func init() {
 			ruleStreamCtxCancelled(c, "C14.3")
 			ruleCancelEmptiesQueue(c, "C14.4")
 			ruleRegistryPairing(c, "C14.5")
+			ruleContextChain(c, "C14.6")
+			ruleClientIDs(c, "C14.7a", "C14.7b", "C14.7")
+			ruleCloseOnce(c, "C14.8")
 		},
 		Explain: "Static necessary conditions of 'nothing left behind': every go statement falls in a verified termination class (straight-line sender, context watcher whose context is cancelled on every finishing path, receive loop, dispatch with deferred finish); every table insert has its delete on every finishing path (both ends) and on first-send failure; stream contexts are cancelled on every finishing path; cancel empties the queue; no run-time writes to package-level state; registry add/deferred-remove pairing.",
 		Assume: []string{"handlers return when their context is cancelled and their blocking operations are released (C04.4)"},
